@@ -706,13 +706,46 @@ static void vf_native(void)
                 canaries=[{"fn": f.name, "rx": r"count\+\+;", "rp": "count = 1;", "expect": r"%s\.(postcondition|loop_invariant_step)" % cname}])
 
 
+def unit_has_undefined(nmax=6):
+    pre = BOOL + "#define NMAX %d\n#define FFFF_(v) ((v) > 1.0e30 || (v) != (v))\nstatic bool FFFF(double v) { return FFFF_(v); }\n" % nmax
+    anyp = lambda upto: "(" + " || ".join("(%d < %s && FFFF_(W_vec[%d]))" % (k, upto, k) for k in range(nmax)) + ")"
+    contract = "\n".join([
+        "__CPROVER_requires(0 <= vec_size && vec_size <= NMAX && vec == W_vec)",
+        "__CPROVER_assigns()",
+        "__CPROVER_ensures(__CPROVER_return_value == %s)" % anyp("vec_size"),
+    ])
+    loop = "\n".join([
+        "__CPROVER_assigns(i)",
+        "__CPROVER_loop_invariant(0 <= i && i <= n && n == vec_size && !%s)" % anyp("i"),
+        "__CPROVER_decreases(n - i)",
+    ])
+    f = Fn("VectorHelper::hasUndefined", "src/Basic/VectorHelper.cpp", r"^bool VectorHelper::hasUndefined\(const VectorDouble& vec\)\s*$",
+           csig="bool VH_hasUndefined(const double* vec, int vec_size)", contract=contract, loops={1: loop}, nloops=1,
+           rewrites=[(r"\(int\) vec\.size\(\)", "vec_size", 1)])
+    h = "\nvoid vf_harness(void)\n{\n  vf_havoc_inputs();\n  VH_hasUndefined(W_vec, W_n);\n  VF_REACH();\n}\n"
+    native = r"""
+static void vf_native(void)
+{
+  if (!(0 <= W_n && W_n <= NMAX)) exit(77);
+  int r = VH_hasUndefined(W_vec, W_n), e = 0;
+  for (int k = 0; k < W_n; k++) if (FFFF(W_vec[k])) e = 1;
+  __CPROVER_assert(r == e, "true exactly when one element is undefined");
+}
+"""
+    return Unit("C11.VH.hasUndefined", [f], prelude=pre, harness=h, native=native, pre_inputs=BOOL, defines={"NMAX": nmax},
+                inputs=[("double", "W_vec", "NMAX"), ("int", "W_n")], enforce="VH_hasUndefined", backends=("minisat", "cadical"), timeout=600, fallback_unwind=nmax + 2,
+                claim="VH::hasUndefined returns true exactly when one element is undefined (NaN or > 1e30); nothing written; loop closed by invariant (length <= %d)" % nmax,
+                assumptions=["at most %d elements (quantifier range)" % nmax, "const VectorDouble& -> (const double*, int)"],
+                canaries=[{"fn": f.name, "rx": r"int i = 0, n", "rp": "int i = 1, n", "expect": r"VH_hasUndefined\.(postcondition|loop_invariant_base)"}])
+
+
 def units(tier):
-    return [unit_dense_dims(), unit_sparse_dims(), unit_normmatrix(), unit_where("Minimum"), unit_where("Maximum"), unit_where_element(), unit_extremum("maximum"), unit_extremum("minimum"), unit_extremum_vv("maximum"), unit_extremum_vv("minimum"), unit_extremum_int("maximum"), unit_extremum_int("minimum"), unit_is_sorted(), unit_is_constant("double"), unit_is_constant("int"), unit_count("countUndefined"), unit_count("countDefined")]
+    return [unit_dense_dims(), unit_sparse_dims(), unit_normmatrix(), unit_where("Minimum"), unit_where("Maximum"), unit_where_element(), unit_extremum("maximum"), unit_extremum("minimum"), unit_extremum_vv("maximum"), unit_extremum_vv("minimum"), unit_extremum_int("maximum"), unit_extremum_int("minimum"), unit_is_sorted(), unit_is_constant("double"), unit_is_constant("int"), unit_count("countUndefined"), unit_count("countDefined"), unit_has_undefined()]
 
 
 META = {
     "level": "other",
-    "explanation": "(the two dimension units and the fourteen VH units (whereMinimum, whereMaximum, whereElement, isSorted, isConstant (double, int), countUndefined, countDefined, maximum, minimum, their vector-of-vectors and VectorInt forms) are unbounded proofs, normMatrix.terms is a bounded stand-in, hence level 'other') Shape/index contracts of the Eigen-backed dense kernels and sparse product kernels for every shape; extremum-rank contracts of VH::whereMinimum / whereMaximum (loop invariant); numerical values, sparse storage, decompositions and thread-count independence are not decidable here.",
+    "explanation": "(the two dimension units and the fifteen VH units (whereMinimum, whereMaximum, whereElement, isSorted, isConstant (double, int), countUndefined, countDefined, hasUndefined, maximum, minimum, their vector-of-vectors and VectorInt forms) are unbounded proofs, normMatrix.terms is a bounded stand-in, hence level 'other') Shape/index contracts of the Eigen-backed dense kernels and sparse product kernels for every shape; extremum-rank contracts of VH::whereMinimum / whereMaximum (loop invariant); numerical values, sparse storage, decompositions and thread-count independence are not decidable here.",
     "trusted_base": ["CBMC 6.11 C++ front end", "Eigen (numerics)", "stub classes"],
     "assumptions": [],
     "not_covered": ["values computed by Eigen/csparse", "csparse storage of MatrixSparse and its non-product methods", "Cholesky / eigen-decomposition", "thread-count independence (no thread model)",
